@@ -1,10 +1,10 @@
 Require Extraction.
 Require Import ExtrOcamlBasic.
-From CSL Require Import Base.Prelude Base.Hex Cbor.Head Codec.Schema Codec.SchemaApi Ledger.Schemas.
+From CSL Require Import Base.Prelude Base.Hex Cbor.Head Codec.Schema Codec.SchemaApi Codec.SchemaSound Ledger.Schemas.
 Extraction Language OCaml.
 Definition keepN : N := N.add 0 0.
 Definition keepZ : Z := Z.add 0 0.
-Extraction "model_c01.ml" keepN keepZ enc dec wfv wfs hex unhex norm wfa api_holds api_model_accepts api_model_field refined writer_form reward_sort_key is_empty_val reward_sort_key is_empty_val
+Extraction "model_c01.ml" keepN keepZ enc dec wfv wfs hex unhex norm wfa api_holds api_model_accepts api_model_field sdec sdec_accepts refined writer_form reward_sort_key is_empty_val reward_sort_key is_empty_val
   TransactionInput TransactionInputs Credential Credentials Ed25519KeyHashes DRep Anchor UnitInterval
   Relay Relays PoolMetadata ProtocolVersion ExUnits ExUnitPrices Nonce MoveInstantaneousReward
   Certificate Certificates Assets MultiAsset Value MintAssets Mint Withdrawals Voter GovernanceActionId
@@ -25,4 +25,4 @@ Extraction "model_c01.ml" keepN keepZ enc dec wfv wfs hex unhex norm wfa api_hol
   BigInt Redeemer RedeemerTag Language CostModel NetworkId Vkey AssetNameS PlutusScriptBytes
   MIRToStakeCredentials TransactionBodies TransactionWitnessSets TransactionUnspentOutput
   ScriptPubkey ScriptAll ScriptAny ScriptNOfK TimelockStart TimelockExpiry AssetNames GenesisHashes ScriptHashes
-  RewardAddresses TransactionMetadatumLabels BigNum VersionedBlock.
+  RewardAddresses TransactionMetadatumLabels BigNum VersionedBlock FixedTransaction.
